@@ -111,6 +111,8 @@ def run(ctx, rep):
         for b, B, bi, t in cas:
             inc = atomics.cas_increment(t)
             ik = b["key"] + "/cas-bounded"
+            if atomics.cas_test(t) is not None:
+                continue  # `compare_exchange(k, k)`: changes nothing
             if inc is None:
                 rep.bad("R-OVFGUARD", ik, "the count word is changed by a compare-and-swap whose operands are not constants with new > current: its effect on the count cannot be bounded", F.loc(b, t["span"]), tag)
             elif inc[1] - inc[0] != 1 or inc[1] > imax:
